@@ -530,6 +530,8 @@ package webdav
 //@   ensures M1: err == nil ==> (let rt : lastDecoded("*internal.ResourceType") in rt != nil && fresh(rt))
 //@   ensures M2: err == nil && !fi.IsDir ==> (let p : lastDecoded("*internal.GetContentLength") in p != nil && fresh(p) && fi.Size == p.Length)
 //@   ensures M6: err == nil && fi.IsDir ==> fi.Size == 0 && fi.MIMEType == "" && fi.ETag == ""
+//@   -- kind: a collection iff the decoded resourcetype lists DAV:collection
+//@   ensures M7: err == nil ==> (fi.IsDir <==> rtHas(lastDecoded("*internal.ResourceType"), internal.CollectionName))
 //@ func webdav.(*Client).Stat(c, ctx, name) (fi, err)
 //@   requires R1: wclientOK(c)
 //@   allocates
